@@ -72,10 +72,12 @@ func (l *streamLogger) Append(cm commit.Commit) error {
 		var back commit.Commit
 		back.ReadFrom(bytes.NewReader(sc.wire))
 		sc.puts, sc.dels = decodeCommit(&back)
+		sc.id, sc.chunk = back.ID, uint32(back.Chunk) // what a reader of the log file receives
 	} else {
 		cl := cm.Clone()
 		sc.raw = &cl
 		sc.puts, sc.dels = decodeCommit(&cl)
+		sc.id, sc.chunk = cl.ID, uint32(cl.Chunk) // what the consumer of the channel receives
 	}
 	l.stream = append(l.stream, sc)
 	return nil
@@ -450,6 +452,48 @@ func scenarioWriters(name, logKind string, plans []writerPlan, withReader bool) 
 // primary after a prefix of the commits applied to that chunk (C08)
 func scenarioSnapshot(name string, nWriters, txns int, rowsPerWriter [][]uint32) scenario {
 	return scenarioSnapshotOpt(name, nWriters, txns, rowsPerWriter, false, false)
+}
+
+// scenarioSnapshotInflight: a snapshot beside an insert whose offset is the first of a new chunk (the
+// reservation is in the fill list, the chunk is not allocated until the insert commits; defect D18)
+func scenarioSnapshotInflight(name string) scenario {
+	return scenario{name: name, build: func(s *scheduler) (func(*scheduler) (string, string, string), func()) {
+		c := newSchedColl(nil)
+		column.VerifSetYield(nil)
+		all := make([]uint32, 16384)
+		for i := range all {
+			all[i] = uint32(i)
+		}
+		insertMarkers(c, all...)
+		column.VerifSetYield(s.yield)
+		var snap bytes.Buffer
+		var snapErr, insErr error
+		var at uint32
+		s.spawn("inserter", func() {
+			at, insErr = c.Insert(func(row column.Row) error { row.SetInt64("a", 1); row.MergeInt64("y", 1); return nil })
+		})
+		s.spawn("snapshot", func() { snapErr = c.Snapshot(&snap) })
+		check := func(s *scheduler) (string, string, string) {
+			column.VerifSetYield(nil)
+			if snapErr != nil {
+				return "snapfail", "Snapshot failed beside an in-flight insert: " + snapErr.Error(), ""
+			}
+			if insErr != nil || at != 16384 {
+				return "snapfail", fmt.Sprintf("the insert beside the snapshot failed or landed at %d (err=%v)", at, insErr), ""
+			}
+			q := newSchedColl(nil)
+			defer q.Close()
+			if err := q.Restore(bytes.NewReader(snap.Bytes())); err != nil {
+				return "cut", "Restore of the snapshot failed: " + err.Error(), ""
+			}
+			if n := q.Count(); n != 16384 && n != 16385 {
+				// an empty row for the in-flight reservation is finding D17; a different count is not
+				return "cut", fmt.Sprintf("restored %d rows; the primary held 16384 before and 16385 after the insert", n), ""
+			}
+			return "", "", ""
+		}
+		return check, func() { c.Close() }
+	}}
 }
 
 // hooked: the writers also store into the hooked column "h" between a and y, so they can be parked in
@@ -837,7 +881,8 @@ func scenariosFor(prop string, tier string) []scenario {
 			scenarioSnapshot("snap-2w-2chunks", 2, 2, [][]uint32{{0, b1}, {1, b1 + 1}}),
 			scenarioSnapshot("snap-3w-2chunks", 3, 1, [][]uint32{{0}, {b1}, {1, b1 + 1}}),
 			scenarioSnapshotOpt("snap-midcommit", 2, 1, [][]uint32{{0}, {b1}}, true, false),
-			scenarioSnapshotOpt("snap-growth", 0, 0, nil, false, true))
+			scenarioSnapshotOpt("snap-growth", 0, 0, nil, false, true),
+			scenarioSnapshotInflight("snap-inflight-insert"))
 	case "C11", "C02":
 		out = append(out, scenarioInserters("2ins", 2, 2, false), scenarioInserters("3ins", 3, 1, false), scenarioInserters("2ins-deleter", 2, 2, true))
 	case "C03":
